@@ -252,7 +252,12 @@ const producerSrc = `local C, D, me, k = C, D, ME, K
 for i = 1, k do
   local v = me .. "." .. i
   if PAYLOAD == "table" then v = {tag = v, 1, 2} elseif PAYLOAD == "number" then v = TID * 1000 + i end
-  C:send(v)
+  if VIASELECT then
+    local idx, rv, ok = channel.select({"<-|", C, v, function(sent) emit("handler", type(sent) == type(v)) end})
+    emit("select-sent", idx)
+  else
+    C:send(v)
+  end
   emit("sent", i)
 end
 D:send(me)
@@ -276,9 +281,12 @@ local n = 0
 while open1 or open2 do
   local cases = {}
   local which = {}
-  if open1 then cases[#cases + 1] = {"|<-", C}; which[#cases] = 1 end
-  if open2 then cases[#cases + 1] = {"|<-", C2}; which[#cases] = 2 end
+  local hv, hok, hcalls = nil, nil, 0
+  local function h(ok, v) hcalls = hcalls + 1; hok = ok; hv = v end
+  if open1 then cases[#cases + 1] = {"|<-", C, HANDLERS and h or nil}; which[#cases] = 1 end
+  if open2 then cases[#cases + 1] = {"|<-", C2, HANDLERS and h or nil}; which[#cases] = 2 end
   local idx, v, ok = channel.select(unpack(cases))
+  if HANDLERS and (hcalls ~= 1 or hok ~= ok or (ok and hv ~= v)) then emit("handler-mismatch", hcalls, hok, ok) end
   local w = which[idx]
   if not ok then
     if w == 1 then open1 = false else open2 = false end
@@ -472,7 +480,11 @@ func (e *Engine) Run(t *core.Tape, cfg *core.Config, st *core.Stats) *core.Viola
 				target = C2
 			}
 			k := 1 + t.Choose(4)
-			globals[tk] = map[string]lua.LValue{"C": lua.LChannel(target.ch), "D": lua.LChannel(D.ch), "ME": lua.LString(tk.name), "K": lua.LNumber(k), "PAYLOAD": lua.LString(payload), "TID": lua.LNumber(tk.id)}
+			viaSelect := t.Choose(3) == 0
+			if viaSelect {
+				st.Probe("producer_sends_through_select")
+			}
+			globals[tk] = map[string]lua.LValue{"C": lua.LChannel(target.ch), "D": lua.LChannel(D.ch), "ME": lua.LString(tk.name), "K": lua.LNumber(k), "PAYLOAD": lua.LString(payload), "TID": lua.LNumber(tk.id), "VIASELECT": lua.LBool(viaSelect)}
 			for j := 1; j <= k; j++ {
 				switch payload {
 				case "string":
@@ -488,7 +500,7 @@ func (e *Engine) Run(t *core.Tape, cfg *core.Config, st *core.Stats) *core.Viola
 		}
 		if useSelect {
 			tk := newTask(kSelectConsumer, "selectconsumer", selectConsumerSrc)
-			globals[tk] = map[string]lua.LValue{"C": lua.LChannel(C.ch), "C2": lua.LChannel(C2.ch)}
+			globals[tk] = map[string]lua.LValue{"C": lua.LChannel(C.ch), "C2": lua.LChannel(C2.ch), "HANDLERS": lua.LBool(t.Bool())}
 			desc = append(desc, fmt.Sprintf("task %d select consumer over chan%d, chan%d", tk.id, C.id, C2.id))
 		} else {
 			for i := 0; i < nc; i++ {
@@ -685,6 +697,8 @@ func observed(tk *task) []string {
 			out = append(out, "closed")
 		case strings.HasPrefix(l, "E:'reply',"):
 			out = append(out, strings.TrimPrefix(l, "E:'reply',"))
+		case strings.HasPrefix(l, "E:'handler-mismatch'"), l == "E:'handler',false":
+			out = append(out, "HANDLER-MISMATCH:"+l)
 		case strings.HasPrefix(l, "E:'token',"):
 			out = append(out, "token")
 		case strings.HasPrefix(l, "E:'received',"):
@@ -770,13 +784,21 @@ func (sc *sched) recvReady(p pendingOp, i int) bool {
 	return m != nil && !p.send[i] && (len(m.buf) > 0 || m.closed)
 }
 
+// asSend: a select whose only case is a send (no default) is, for the channel model, a send.
+func asSend(p pendingOp) pendingOp {
+	if p.kind == parkChanPre && p.op == lua.VerifChanSelect && p.ncases == 1 && p.send[0] && !p.hasDef {
+		p.op = lua.VerifChanSend
+	}
+	return p
+}
+
 func (sc *sched) enabled(cancelMode bool) []choice {
 	var out []choice
 	for _, tk := range sc.tasks {
 		if tk.done {
 			continue
 		}
-		p := tk.pend
+		p := asSend(tk.pend)
 		switch p.kind {
 		case parkStart, parkStep, parkChanPost:
 			out = append(out, choice{tk: tk})
@@ -879,7 +901,7 @@ func (sc *sched) loop(t *core.Tape, fail func(string, string, ...interface{}) *c
 			tk.fired = true
 			tk.ctx.Fire()
 		}
-		pre := tk.pend
+		pre := asSend(tk.pend)
 		if pick.partner != nil {
 			// rendezvous: release the matched pair, wait for both
 			r := pick.partner
